@@ -260,6 +260,16 @@ def drive : List String → Option String
     let k ← parseKind k
     let evs ← parseEvs evs
     pure (showOutcome (readMessage c k evs))
+  | ["reply-for", c, k, id, evs] => do
+    -- single outstanding request with message-id `id`: a reply whose phase-1 id differs is not
+    -- found in the request map (Error::RequestNotFound) and fails the reading future
+    let c ← parseRCfg c
+    let k ← parseKind k
+    let id ← id.toNat?
+    let evs ← parseEvs evs
+    pure (match readPartial c (evs.length + 1) none evs with
+      | .error _ => "err"
+      | .ok id1 => if id1 == id then showOutcome (phase2 c k id1 evs) else "err")
   | ["reply-dbg", c, k, evs] => do
     let c ← parseRCfg c
     let k ← parseKind k
